@@ -281,6 +281,78 @@ def h_summary_commutes(eng):
 # ----------------------------------------------------------------------------------------------------------
 # install decision
 # ----------------------------------------------------------------------------------------------------------
+def h_install_entry_updated(eng):
+    """install_requirements suspends twice (the scan in the executor, Home Assistant's installer).  While it is suspended another
+    task may update the config entry (options flow, YAML import): Home Assistant REPLACES config_entry.data.  Contract (A-COOP):
+    pip is started only if the entry allows it when the scan has finished, and the write-back of the package tracker carries the
+    entry's data as it is at the write - it changes '_installed_packages' and nothing else."""
+    from pyvc.stmts import SymKey
+    it = Interpreter(eng)
+    w = World(eng)
+    mod, installed = req_module(eng, it, w, None)
+    U = "C20/install_requirements||entry-update"
+    p = z3.Const("pkg", PkgS)
+    want = z3.Const("want_ver", VerS)
+    eng.assume(z3.And(valid(want), want != unp_c, nonempty(want)))
+    eng.assume(z3.Not(z3.Select(installed.cols["dom"], p)))       # wanted, pinned, not installed, not recorded: will be installed
+    all_reqs = {SymKey(SV(p)): {"version": SV(want), "sources": ["f"], "installed_version": None}}
+    when = ["during-the-scan", "during-the-install"][eng.choose(2, "entry-updated")]
+    allow_after = bool(eng.choose(2, "allow_all_imports-after-the-update"))
+    rec0 = {}
+    data_old = {"allow_all_imports": True, "_installed_packages": rec0, "hass_is_global": False}
+    data_new = {"allow_all_imports": allow_after, "_installed_packages": rec0, "hass_is_global": True}
+    entry = Rec(fields={"data": data_old}, name="config_entry")
+    updates, installs = [], []
+
+    def update_entry():
+        entry._fields["data"] = data_new
+
+    def executor(i, fn, *a):
+        def th():
+            if getattr(fn, "qualname", "") == "process_all_requirements":
+                if when == "during-the-scan":
+                    update_entry()
+                return all_reqs
+            return i.call(fn, list(a), {})
+        return Coro(th, "executor_job")
+
+    def process_reqs(i, hass_, dom, reqs):
+        def th():
+            installs.append(list(reqs))
+            if when == "during-the-install":
+                update_entry()
+            installed.view().setitem(SV(p), SV(want))
+        return Coro(th, "async_process_requirements")
+    hass = Rec(fields={"async_add_executor_job": executor,
+                       "config_entries": Rec(fields={"async_update_entry": lambda i, entry=None, data=None: updates.append(dict(data))})}, name="hass")
+    mod.env.vars["async_process_requirements"] = process_reqs
+    k, v = run_catching(it, lambda: it.await_(it.call(mod.func("install_requirements"), [hass, entry, "folder"], {})))
+    eng.cover(f"exit:{k}:{when}:{allow_after}")
+    eng.oblige(f"{U}/post.no-exception", k == "ok")
+    if k != "ok":
+        return
+
+    def W(ob, what):
+        if ob.status == "refuted":
+            ob.witness = {"signature": f"entry-updated-{when}:{what}", "when": when, "allow_after": allow_after, "what": what}
+        return ob
+    if when == "during-the-scan" and not allow_after:
+        W(eng.oblige(f"{U}/post.nothing-installed-once-the-entry-forbids-it", installs == [] and updates == []), "installed-although-forbidden")
+        return
+    W(eng.oblige(f"{U}/post.missing-package-installed-once", len(installs) == 1), "install-count")
+    W(eng.oblige(f"{U}/post.tracker-written-back-once", len(updates) == 1), "write-back-count")
+    if len(updates) == 1:
+        u = updates[0]
+        W(eng.oblige(f"{U}/frame.write-back-changes-only-the-package-tracker",
+                     u.get("allow_all_imports") is allow_after and u.get("hass_is_global") is True and sorted(u) == sorted(data_new)), "stale-entry-written-back")
+    eng.oblige(f"{U}/frame.entry-dictionaries-not-mutated-in-place", data_new["_installed_packages"] is rec0 and rec0 == {} and data_old["allow_all_imports"] is True)
+
+
+def replay_entry_updated(wj):
+    from replay.native import run_native
+    return run_native("c20_entry_updated_meanwhile", wj, timeout=120)
+
+
 def h_install(eng):
     it = Interpreter(eng)
     w = World(eng)
@@ -492,6 +564,7 @@ def harnesses():
         Harness("summary-commutes", h_summary_commutes, units=[]),
         Harness("install-decision", h_install, units=[(R_PY, "install_requirements")],
                 replay=lambda wj: __import__("replay.native", fromlist=["run_native"]).run_native("c20_failed_install", wj)),
+        Harness("install||entry-update", h_install_entry_updated, units=[(R_PY, "install_requirements")], replay=replay_entry_updated),
         Harness("config-import-keeps-record", h_import_keeps_record, units=[(CF_PY, "PyscriptConfigFlow.async_step_import")],
                 replay=lambda wj: __import__("replay.native", fromlist=["run_native"]).run_native("c20_yaml_import_keeps_record", wj)),
         Harness("update_unpinned_versions", h_update_unpinned, units=[(R_PY, "update_unpinned_versions")]),
